@@ -724,6 +724,20 @@ def run_oracle(oracle, lines):
     return vlib.run_lines("sh", ["-c", 'ulimit -s unlimited 2>/dev/null || ulimit -s 1000000; exec "$0"', oracle], lines, timeout=3000)
 
 
+def run_batches(binary, args, lines, batch=250, max_crashes=8):
+    """resilient run in batches; once max_crashes children have died the rest is not executed
+    (each death costs a process and possibly gigabytes): '<id> SKIPPED'"""
+    out, crashes = [], 0
+    for i in range(0, len(lines), batch):
+        if crashes >= max_crashes:
+            out += [l.split(" ", 1)[0] + " SKIPPED" for l in lines[i:]]
+            break
+        res = vlib.run_lines_resilient(binary, args, lines[i:i + batch], per_case_timeout=60)
+        crashes += sum(1 for r in res if r.split(" ")[1:2] in (["CRASH"], ["HANG"]))
+        out += res
+    return out
+
+
 def run(tier, seed):
     ck = vlib.Check("C13", tier, seed, level="proof")
     ok_obl = ck.obligations(PROP, clean=False)
@@ -982,8 +996,8 @@ def run(tier, seed):
     lmod = [lmod[n] for n in keep]
     ulines = [ulines[n] for n in keep]
     llines = [llines[n] for n in keep]
-    uout = vlib.run_lines_resilient(gvh, ["marshal"], ulines, per_case_timeout=60)
-    lout = vlib.run_lines_resilient(gvh, ["lua"], llines, per_case_timeout=60)
+    uout = run_batches(gvh, ["marshal"], ulines)
+    lout = run_batches(gvh, ["lua"], llines)
     ck.log("stage C: %d malformed streams, %.1fs" % (len(muts), time.time() - t0))
     known_make = ck.known_match(lambda k: k.get("id") == "C13-unmarshal-make-before-budget")
     known_upv = ck.known_match(lambda k: k.get("id") == "C13-load-negative-upvalue-count")
@@ -992,6 +1006,9 @@ def run(tier, seed):
         if n >= len(mout) or n >= len(uout) or n >= len(lout):
             break
         mo, uo, lo = mout[n].split(" "), uout[n].split(" "), lout[n].split(" ")
+        if uo[1] == "SKIPPED" or lo[1] == "SKIPPED":
+            ck.count("malformed:not-executed-after-repeated-crashes")
+            continue
         ck.case("mal:" + m.hex(), True)
         ck.count("malformed:kind:" + kind.split("=")[0])
         ck.count("malformed:model:" + mo[1] + (":" + mo[2] if mo[1] == "err" else ""))
